@@ -132,6 +132,8 @@ def split_script(lines):
             continue
         if t[0] == "ents":
             items += [("ents", "", x) for x in t[1:]]
+        elif t[0] == "raised":
+            items += [("raised", "", x) for x in t[1:]]
         elif t[0] == "store":
             items.append(("storehdr", t[1] + " " + t[2], ""))
             items += [("store", t[1] + " " + t[2], x) for x in t[3:]]
@@ -143,10 +145,12 @@ def split_script(lines):
 
 
 def rebuild(items):
-    ents, stores, bits, ops = [], {}, {}, []
+    ents, raised, stores, bits, ops = [], [], {}, {}, []
     for kind, key, val in items:
         if kind == "ents":
             ents.append(val)
+        elif kind == "raised":
+            raised.append(val)
         elif kind == "storehdr":
             stores.setdefault(key, [])
         elif kind == "store":
@@ -158,6 +162,9 @@ def rebuild(items):
     out = []
     if ents:
         out.append("ents " + " ".join(ents))
+    if raised:
+        # entities created atomically and not yet merged; the harness drops entries that are not in `ents`
+        out.append("raised " + " ".join(raised))
     for key in sorted(stores, key=lambda k: int(k.split()[0])):
         out.append(("store " + key + " " + " ".join(stores[key])).rstrip())
     for key in sorted(bits, key=int):
@@ -381,7 +388,8 @@ def check(prop, tier, seed, t0):
         "distinct_nontrivial": stats.get("distinct_nontrivial", 0),
         "rule": "evaluations = join ops of this property's modes executed on the real crate and replayed through the Lean model "
                 "(Level-A join + Level-B BitIter/BitProducer) and the spec monitor; cases = random worlds (16 stores of 8 kinds, "
-                "4 raw bit sets, entities with generations) drawn per index class; a case is non-trivial when some join of arity >= 2 "
+                "4 raw bit sets, entities with generations; in half of the worlds 1..30% of the entities are `raised`: created atomically, "
+                "not yet merged by maintain) drawn per index class; a case is non-trivial when some join of arity >= 2 "
                 "delivered a non-empty result; distinct = distinct case scripts (hash), counted by the driver",
         "traces_validated_against_impl": stats.get("cases", 0),
         "transcript_lines": stats.get("lines", 0),
@@ -391,6 +399,7 @@ def check(prop, tier, seed, t0):
         "mode_histogram": mode_hist, "arity_histogram": arity_hist,
         "boundary_hits": {k: stats.get(k, 0) for k in ("cross64", "cross4096", "cross262144", "adj64", "adj4096", "adj262144")},
         "max_index": stats.get("max_index", 0),
+        "raised_entities": {k: stats.get(k, 0) for k in ("raised", "raised_cases", "raised_gen2", "raised_visits", "raised_ops")},
         "h3_hook": "present" if h3 else "absent",
         "h3_note": h3_note,
         "runs": [f"{r['label']} ({r['wall']:.1f}s)" for r in results],
